@@ -88,11 +88,38 @@ def r_primitives(rule, root=None):
 
 
 def ctor_args(fn, tail_name):
-    """arguments of the single `...::<tail_name>::new(a, b, c)` call"""
+    """arguments of the single `...::<tail_name>::new(a, b, c)` call; `<tail_name>::from(Vector3::from(E))` with E
+    an expression over the shape's vector fields is read component by component (the vector operators act
+    component-wise: C16.R5)"""
+    import copy
+
     for c in A.find(fn["body"], "Call"):
         segs = A.path_segs(c["func"]) or []
         if len(segs) >= 2 and segs[-1] == "new" and segs[-2] == tail_name:
             return c["args"]
+    for c in A.find(fn["body"], "Call"):
+        segs = A.path_segs(c["func"]) or []
+        if len(segs) >= 2 and segs[-1] == "from" and A.strip_generics(segs[-2]) == tail_name and len(c["args"]) == 1:
+            e = A.strip(c["args"][0])
+            while e.get("k") == "Call" and (A.path_segs(e["func"]) or [None])[-1] == "from" and "Vector3" in "::".join(A.path_segs(e["func"]) or []) and len(e["args"]) == 1:
+                e = A.strip(e["args"][0])
+            while e.get("k") == "MethodCall" and e["method"] == "into" and not e["args"]:
+                e = A.strip(e["recv"])
+            out = []
+            for comp in ("x", "y", "z"):
+                ec = copy.deepcopy(e)
+
+                def rec(n):
+                    if isinstance(n, list):
+                        return [rec(x) for x in n]
+                    if not isinstance(n, dict):
+                        return n
+                    if n.get("k") == "Field" and str(n.get("member")) in ("offset", "scale", "center") and A.ident(A.strip(n["e"])):
+                        return {"k": "Field", "e": n, "member": comp, "ln": n.get("ln")}
+                    return {k_: (rec(v_) if isinstance(v_, (dict, list)) and k_[:1] != "_" else v_) for k_, v_ in n.items()}
+
+                out.append(rec(ec))
+            return out
     return None
 
 
@@ -156,29 +183,62 @@ def r_transforms(rule, root=None):
             rule.ok("Rotate%s rotates about Axis::%s by v.angle around v.center" % (ax, ax), file=LIB, line=fn["ln"])
         else:
             rule.bad("Rotate%s" % ax, "Rotate%s must forward shape/angle/center and use Axis::%s; found %s" % (ax, ax, f if st else "?"), A.where(LIB, fn))
-    # Rotate: Move(-c), rotate by -angle (radians) about axis, Move(c)
+    # Rotate: Move(-c), rotate by -angle (radians) about axis, Move(c) - read from the resolved result (locals and
+    # private helpers folded in), outermost step first
     fn = from_fn("Rotate", root=root)
-    moves = [s for s in A.find(fn["body"], "Struct") if A.path_segs(s["path"])[-1] == "Move"]
-    t = A.ftxt(fn["body"])
+    par = [A.binding_name(p_["pat"]) for p_ in fn["sig"]["inputs"] if "pat" in p_][0]
+    res = _resolve_body(fn)
     probs = []
-    if len(moves) != 2:
-        probs.append("expected two Move steps")
+
+    def peel(e):
+        e = A.strip(e)
+        while True:
+            if e.get("k") == "MethodCall" and e["method"] in ("into", "clone") and not e["args"]:
+                e = A.strip(e["recv"])
+            elif e.get("k") == "Call" and (A.path_segs(e["func"]) or [])[-2:] == ["Tree", "from"] and len(e["args"]) == 1:
+                e = A.strip(e["args"][0])
+            elif e.get("k") in ("Block",) and len(A.stmts_of(e)) == 1 and A.stmt_expr(A.stmts_of(e)[0]) is not None:
+                e = A.strip(A.stmt_expr(A.stmts_of(e)[0]))
+            else:
+                return e
+
+    def canon(e):
+        return re.sub(r"[()&]", "", str(A.ftxt(e)))
+
+    outer = peel(res) if res is not None else {}
+    inner = rot = None
+    if outer.get("k") == "Struct" and A.path_segs(outer["path"])[-1] == "Move":
+        f1 = {x["name"]: x["e"] for x in outer["fields"]}
+        if canon(f1.get("offset", {"k": "Path", "segs": ["?"]})) != "%s.center" % par:
+            probs.append("the last step must move the rotated shape back by v.center (found offset `%s`)" % str(A.ftxt(f1.get("offset") or {}))[:40])
+        mid = peel(f1.get("shape") or {})
+        if mid.get("k") == "MethodCall" and mid["method"] == "remap_affine" and len(mid["args"]) == 1:
+            rot = mid["args"][0]
+            inner = peel(mid["recv"])
+        else:
+            probs.append("between the two moves the shape must be remapped by the rotation (remap_affine)")
     else:
-        o0 = {x["name"]: A.ftxt(x["e"]) for x in moves[0]["fields"]}
-        o1 = {x["name"]: A.ftxt(x["e"]) for x in moves[1]["fields"]}
-        if o0.get("offset") != "-v.center" or o0.get("shape") != "v.shape":
-            probs.append("the first step must move the shape by -v.center (found %s)" % o0)
-        if o1.get("offset") != "v.center" or o1.get("shape") != "shape":
-            probs.append("the last step must move the rotated shape back by v.center (found %s)" % o1)
-    env = S.SymEnv()
-    S.bind_lets(fn["body"]["stmts"], env)
-    d = env.vars.get("d")
-    if d is None or not S.equal(d, -env.sym("angle") * sp.pi / 180):
-        probs.append("the rotation applied to coordinates must be -angle converted from degrees (found d = %s)" % d)
-    if "nalgebra::Rotation3::<f32>::new(nalgebra::Vector3::from((d**axis)))" not in t:
-        probs.append("the rotation must be about `axis` scaled by d")
-    if "letaxis=v.axis.vec();" not in t:
-        probs.append("`axis` must be the shape's own axis vector")
+        probs.append("expected two Move steps around the rotation")
+    if inner is not None:
+        if inner.get("k") == "Struct" and A.path_segs(inner["path"])[-1] == "Move":
+            f0 = {x["name"]: x["e"] for x in inner["fields"]}
+            if canon(f0.get("offset") or {}) != "-%s.center" % par or canon(f0.get("shape") or {}) != "%s.shape" % par:
+                probs.append("the first step must move the shape by -v.center (found %s)" % {k_: str(A.ftxt(v_))[:30] for k_, v_ in f0.items()})
+        else:
+            probs.append("expected two Move steps around the rotation")
+    if rot is not None:
+        rt = canon(rot)
+        m_ = re.search(r"Rotation3::<f32>::newnalgebra::Vector3::from(.*)$", rt)
+        if not m_:
+            probs.append("the rotation must be nalgebra::Rotation3::new(Vector3::from(d * axis))")
+        else:
+            arg = m_.group(1)
+            ok_ax = arg.endswith("**%s.axis.vec" % par)
+            dtxt = arg[: -len("**%s.axis.vec" % par)] if ok_ax else arg
+            if not ok_ax:
+                probs.append("the rotation must be about the shape's own axis vector, scaled by the angle (found `%s`)" % arg[:60])
+            elif dtxt not in ("-%s.angle.to_radians" % par, "-%s.angle.to_radians" % par):
+                probs.append("the rotation applied to coordinates must be -angle converted from degrees (found d = %s)" % dtxt[:60])
     if probs:
         for p in probs:
             rule.bad("Rotate|%s" % p[:40], "Rotate: %s" % p, A.where(LIB, fn))
@@ -551,6 +611,8 @@ def r_named_constants(rule, root=None):
             good = sp.simplify(got - want) == 0
         except Exception as e_:  # noqa: BLE001
             got, good = "? (%s)" % e_, False
+        if not good and _norm_is_euclidean(nf, list(comps)):
+            good = True  # squares taken through the component-wise `map` helper (which R5 reads)
         if good:
             rule.ok("%s::norm is the Euclidean length" % ty, file=TYPES, line=nf["ln"])
         else:
@@ -560,6 +622,58 @@ def r_named_constants(rule, root=None):
 from . import C13  # noqa: E402
 
 
+
+
+def _subst_tree(e, env, here=None, depth=0):
+    """a copy of `e` with the locals in `env` replaced by what they stand for (struct-field shorthand included) and
+    calls to private free functions of the same file replaced by their resolved bodies"""
+    import copy
+
+    def fix(n):
+        if isinstance(n, list):
+            return [fix(x) for x in n]
+        if not isinstance(n, dict):
+            return n
+        sn = n
+        if n.get("k") == "Path" and len(n.get("segs", [])) == 1 and n["segs"][0] in env:
+            return env[n["segs"][0]]
+        out = {}
+        for kk, vv in n.items():
+            if kk[:1] == "_":
+                out[kk] = vv
+            elif isinstance(vv, (dict, list)):
+                out[kk] = fix(vv)
+            else:
+                out[kk] = vv
+        if out.get("k") == "Struct":
+            for f in out.get("fields", []):
+                if f.get("e") is None and f["name"] in env:
+                    f["e"] = env[f["name"]]
+        if out.get("k") == "Call" and here is not None and depth < 3:
+            segs = A.path_segs(out["func"]) or []
+            if len(segs) == 1:
+                callee = A._same_file_fn(here, segs[0])
+                if callee is not None and dict.get(callee, "body") and not (callee.get("_owner") or {}):
+                    ps = [A.binding_name(p_["pat"]) for p_ in callee["sig"]["inputs"] if "pat" in p_]
+                    if len(ps) == len(out["args"]) and None not in ps:
+                        r_ = _resolve_body(callee, dict(zip(ps, out["args"])), depth + 1)
+                        if r_ is not None:
+                            return r_
+        return out
+
+    return fix(copy.deepcopy(e) if depth == 0 else e)
+
+
+def _resolve_body(fn, env0=None, depth=0):
+    """the value a straight-line function body returns, as one expression over its parameters"""
+    env = dict(env0 or {})
+    tail = None
+    for st in A.stmts_of(fn["body"]):
+        if st.get("k") == "Let" and st.get("init") is not None and A.binding_name(st["pat"]):
+            env[A.binding_name(st["pat"])] = _subst_tree(st["init"], env, fn, depth)
+        elif st.get("k") == "ExprStmt" and not st.get("semi", True):
+            tail = _subst_tree(st["e"], env, fn, depth)
+    return tail
 
 TRANSFORMS = ("Move", "Scale", "ScaleUniform", "Reflect", "ReflectX", "ReflectXY", "ReflectY", "ReflectZ", "Rotate", "RotateX", "RotateY", "RotateZ", "RepeatX", "RepeatY", "RepeatZ", "RepeatXY", "RepeatXYZ")
 
@@ -644,14 +758,9 @@ def r_pure_transforms(rule, root=None):
             rec(e)
             return e
 
-        tail = None
-        for st in A.stmts_of(fn["body"]):
-            if st.get("k") == "Let" and st.get("init") is not None and A.binding_name(st["pat"]):
-                env[A.binding_name(st["pat"])] = subst(st["init"])
-            elif st.get("k") == "ExprStmt" and not st.get("semi", True):
-                tail = subst(st["e"])
+        tail = _resolve_body(fn)
         leaves = [l for l, _c in A.value_cases(tail)] if tail is not None else []
-        leaves += [subst(r_["e"]) for r_ in A.find(fn["body"], "Return") if r_.get("e") is not None]
+        leaves += [_subst_tree(r_["e"], {}, fn) for r_ in A.find(fn["body"], "Return") if r_.get("e") is not None]
         if leaves and all(pure(l) for l in leaves):
             rule.ok("%s returns its shape remapped (or handed to another transform), the value untouched" % ty, file=LIB, line=fn["ln"])
         else:
@@ -660,6 +769,18 @@ def r_pure_transforms(rule, root=None):
     if n < 13:
         rule.lost("transform impls (found %d of the 13 known)" % n)
 
+
+
+def _norm_is_euclidean(fn, comps):
+    """sqrt of the sum of every component squared, written directly or through `self.map(|c| c.powi(2))`"""
+    t = str(A.ftxt(fn["body"]))
+    m = re.fullmatch(r"\{let(\w+)=self\.map\(\|(\w+)\|(?:\2\.powi\(2\)|\(\2\*\2\)|\2\.square\(\))\);(.*)\}", t)
+    if m:
+        v, rest = m.group(1), m.group(3)
+        terms = sorted(re.findall(r"(?<![\w.])%s\.(\w)(?![\w(])" % re.escape(v), rest))
+        return terms == sorted(comps) and rest.endswith(".sqrt()") and "-" not in rest and "*" not in rest and "/" not in rest
+    terms = sorted(re.findall(r"self\.(\w)\.powi\(2\)", t))
+    return terms == sorted(comps) and t.endswith(".sqrt()}") and "-" not in t and "*" not in t and "/" not in t
 
 TYPES_RS = "fidget-shapes/src/types.rs"
 
@@ -742,9 +863,7 @@ def r_vector_helpers(rule, root=None):
         if ty != "Vec4":
             try:
                 fn = A.find_fn(TYPES_RS, "norm", self_ty=ty, root=root)
-                t = str(A.ftxt(fn["body"]))
-                terms = sorted(re.findall(r"self\.(\w)\.powi\(2\)", t))
-                if terms == sorted(cs) and t.endswith(".sqrt()}") and "-" not in t and "*" not in t:
+                if _norm_is_euclidean(fn, cs):
                     rule.ok("%s::norm is the square root of the sum of every component squared" % ty, file=TYPES_RS, line=fn["ln"])
                 else:
                     rule.bad("%s::norm" % ty, "%s::norm must be sqrt(%s)" % (ty, " + ".join("%s^2" % c for c in cs)), A.where(fn))
@@ -758,8 +877,8 @@ def r_vector_helpers(rule, root=None):
     body = C17.tok(mdefs["impl_binary"]["tokens"]) if "impl_binary" in mdefs else ""
     facts = [
         ("vector op vector combines component-wise as a.op(b)", r"fn\$base_fn\(self,(?P<r>\w+):\$ty\)->Self\{self\.combine\((?P=r),\|(?P<a>\w+),(?P<b>\w+)\|(?P=a)\.\$base_fn\((?P=b)\)\)\}"),
-        ("scalar op vector is splat(scalar).op(vector)", r"impl(?:std::ops::)?\$op<\$ty>forf32\{typeOutput=\$ty;fn\$base_fn\(self,(?P<r>\w+):\$ty\)->\$ty\{\$ty::from\(self\)\.\$base_fn\((?P=r)\)\}\}"),
-        ("vector op scalar is vector.op(splat(scalar))", r"impl(?:std::ops::)?\$op<f32>for\$ty\{typeOutput=\$ty;fn\$base_fn\(self,(?P<r>\w+):f32\)->\$ty\{self\.\$base_fn\(\$ty::from\((?P=r)\)\)\}\}"),
+        ("scalar op vector is splat(scalar).op(vector)", r"impl(?:std::ops::)?\$op<\$ty>forf32\{typeOutput=\$ty;fn\$base_fn\(self,(?P<r>\w+):\$ty\)->\$ty\{(?:\$ty::from\(self\)\.\$base_fn\((?P=r)\)|(?P=r)\.map\(\|(?P<b>\w+)\|self\.\$base_fn\((?P=b)\)\))\}\}"),
+        ("vector op scalar is vector.op(splat(scalar))", r"impl(?:std::ops::)?\$op<f32>for\$ty\{typeOutput=\$ty;fn\$base_fn\(self,(?P<r>\w+):f32\)->\$ty\{(?:self\.\$base_fn\(\$ty::from\((?P=r)\)\)|self\.map\(\|(?P<a>\w+)\|(?P=a)\.\$base_fn\((?P=r)\)\))\}\}"),
         ("named binary helpers (min / max) combine self with the converted argument", r"self\.combine\(\$ty::from\((?P<r>\w+)\),\$f\)"),
         ("the default closure of a named binary helper is a.f(b)", r"impl_binary!\(\$ty,\$base_fn,\|(?P<a>\w+),(?P<b>\w+)\|(?P=a)\.\$base_fn\((?P=b)\)\);"),
     ]
